@@ -76,21 +76,23 @@ impl Header {
 
         let fmt_dict = self.dict.to_string();
 
+        // The header is terminated by a newline, which has to fit even if the rest is aligned
         let len = MAGIC.len()
             + version_bytes.len()
             + self.version.header_len_bytes_len()
-            + fmt_dict.len();
+            + fmt_dict.len()
+            + 1;
         let rem = len % ALIGN;
         let pad_len = if rem == 0 { 0 } else { ALIGN - rem };
         assert_eq!((len + pad_len) % ALIGN, 0);
 
-        let header_len = fmt_dict.len() + pad_len;
+        let header_len = fmt_dict.len() + pad_len + 1;
         self.version.write_header_len(header_len, writer)?;
 
         writer.write_all(&fmt_dict.into_bytes())?;
 
         let mut pad = vec![b' '; pad_len];
-        pad[pad_len - 1] = b'\n';
+        pad.push(b'\n');
         writer.write_all(&pad[..])
     }
 }
